@@ -35,9 +35,10 @@ seed("c02-bare-lf-line", "C02", "R-dot-table", "data.go",
 		b[n] = c""", "bare LF starts a line: LF.CRLF ends the message")
 seed("c02-no-drain", "C02", "R-drain-after-data", "conn.go",
 """	r.limited = false
-	io.Copy(ioutil.Discard, r) // Make sure all the data has been consumed
+	_, drainErr := io.Copy(ioutil.Discard, r) // Make sure all the data has been consumed
 	c.writeResponse(code, enhancedCode, msg)""",
 """	r.limited = false
+	var drainErr error
 	c.writeResponse(code, enhancedCode, msg)""", "SMTP drain removed")
 seed("c02-drain-limited", "C02", "R-drain-unlimited", "conn.go",
 """	code, enhancedCode, msg := dataErrorToStatus(c.Session().Data(r))
@@ -45,8 +46,8 @@ seed("c02-drain-limited", "C02", "R-drain-unlimited", "conn.go",
 """	code, enhancedCode, msg := dataErrorToStatus(c.Session().Data(r))""", "limit not lifted before the drain")
 seed("c02-done-before-drain", "C02", "R-lmtp-join", "conn.go",
 """			r.limited = false
-			io.Copy(ioutil.Discard, r) // Make sure all the data has been consumed
-			done <- true""",
+			_, drainErr := io.Copy(ioutil.Discard, r) // Make sure all the data has been consumed
+			done <- drainErr == nil""",
 """			done <- true
 			r.limited = false
 			io.Copy(ioutil.Discard, r) // Make sure all the data has been consumed""", "completion signalled before the drain")
@@ -123,9 +124,9 @@ seed("c04-wrong-class", "C04", "R-reply-const", "conn.go",
 "c.writeResponse(452, EnhancedCode{4, 5, 3}", "c.writeResponse(452, EnhancedCode{5, 5, 3}", "452 with class 5 enhanced code")
 seed("c04-const-verdict", "C04", "R-reply-const", "conn.go",
 """	c.writeResponse(code, enhancedCode, msg)
-}""", """	_ = code
+	if drainErr != nil {""", """	_ = code
 	c.writeResponse(250, enhancedCode, msg)
-}""", "DATA always answered 250")
+	if drainErr != nil {""", "DATA always answered 250")
 seed("c04-goroutine-rereads", "C04", "R-go-capture", "conn.go",
 """			dataResult <- err
 			r.CloseWithError(err)""", """			c.dataResult <- err
@@ -136,9 +137,10 @@ seed("c04-loop-double-dispatch", "C04", "R-loop-one-dispatch", "server.go",
 
 # ---------------- C05 / C06 ----------------
 seed("c05-refusal-keeps-chunk", "C05", "R-bdat-consume", "conn.go",
-"""		io.Copy(ioutil.Discard, io.LimitReader(c.text.R, int64(size)))
+"""		_, discardErr := io.Copy(ioutil.Discard, io.LimitReader(c.text.R, int64(size)))
 		c.writeResponse(502, EnhancedCode{5, 5, 1}, "Missing RCPT TO command.")""",
-"""		c.writeResponse(502, EnhancedCode{5, 5, 1}, "Missing RCPT TO command.")""", "refused BDAT leaves its chunk")
+"""		var discardErr error
+		c.writeResponse(502, EnhancedCode{5, 5, 1}, "Missing RCPT TO command.")""", "refused BDAT leaves its chunk")
 seed("c05-frame-from-conn", "C05", "R-bdat-frame", "conn.go",
 """	chunk := io.LimitReader(c.text.R, int64(size))""", """	chunk := io.LimitReader(c.conn, int64(size))""", "chunk read below the buffered reader")
 seed("c05-accounting", "C05", "R-bdat-accounting", "conn.go",
@@ -229,7 +231,7 @@ seed("c10-noop-no-hello", "C10", "R-ctls-rehello", "client.go",
 	}""", """func (c *Client) Noop() error {""", "command without hello()")
 
 # ---------------- C11 / C12 ----------------
-seed("c11-size-error-ignored", "C11", "R-param-errors-checked", "conn.go",
+seed("c11-size-error-ignored", "C11", "R-param-flow", "conn.go",
 """			size, err := strconv.ParseUint(value, 10, 32)
 			if err != nil {
 				c.writeResponse(501, EnhancedCode{5, 5, 4}, "Unable to parse SIZE as an integer")
@@ -576,6 +578,32 @@ seed("c09-auth-advertised-insecure", "C09", "R-auth-gate", "conn.go",
 """, """	if true {
 		mechs := c.authMechanisms()
 """, "AUTH advertised in plaintext")
+
+seed("c02-drain-failure-ignored", "C02", "R-drain-failure-closes", "conn.go",
+"""	c.writeResponse(code, enhancedCode, msg)
+	if drainErr != nil {
+		// The end of the message was not reached (timeout, connection
+		// error): what follows in the stream is not a command.
+		c.Close()
+	}""", """	c.writeResponse(code, enhancedCode, msg)
+	_ = drainErr""", "failed drain after DATA does not end the connection")
+seed("c02-lmtp-drain-failure-ignored", "C02", "R-drain-failure-closes", "conn.go",
+"""			_, drainErr := io.Copy(ioutil.Discard, r) // Make sure all the data has been consumed
+			done <- drainErr == nil
+		}()""", """			io.Copy(ioutil.Discard, r) // Make sure all the data has been consumed
+			done <- true
+		}()""", "LMTP delivery reports success although the drain failed")
+seed("c05-discard-failure-ignored", "C05", "R-drain-failure-closes", "conn.go",
+"""		if err == errPanic || discardErr != nil {
+			c.Close()
+		}""", """		_ = discardErr
+		if err == errPanic {
+			c.Close()
+		}""", "failed discard of a chunk remainder does not end the connection")
+seed("c04-lmtp-false-not-closed", "C04", "R-drain-failure-closes", "conn.go",
+"""	if !<-done {
+		c.Close()
+	}""", """	<-done""", "handler ignores the delivery's failure report")
 
 json.dump(S, open(os.path.join(os.path.dirname(os.path.abspath(__file__)), "bank.json"), "w"), indent=1)
 print(len(S), "seeds")
